@@ -2,12 +2,12 @@ CONSTANTS
  Confs <- MCConfs
  FixWaitErr = FALSE
  Reduce = FALSE
- MCShapes = {"img"}
- MCPairs = {"tworeg"}
+ MCShapes = {"schema1"}
+ MCPairs = {"tworeg", "samereg"}
  MCOpts <- MCOptsDefault
- MCFeats <- MCFeatsDefault
- MCInit = "empty"
- MCTag0 = {"none"}
+ MCFeats <- MCFeatsMount
+ MCInit = "corners"
+ MCTag0 = {"none", "stale"}
  MCByDigest = {FALSE}
  MCTgtByDigest = {FALSE}
  MaxFaults = 2
